@@ -158,10 +158,10 @@ func Run(a common.Args) {
 	// directed scenarios (after the random traces, so that their ids do not move the random ones): the
 	// histories behind the suspected defects DESIGN §7 #18 and #6 and the repeated kill, played to the end
 	{
-		// scenarios 4-7 always run; scenarios 1-3 with scen=1
-		ks := []int{4, 5, 6, 7}
+		// scenarios 4-8 always run; scenarios 1-3 with scen=1
+		ks := []int{4, 5, 6, 7, 8}
 		if extraInt(a.Extra, "scen", 0) > 0 {
-			ks = []int{1, 2, 3, 4, 5, 6, 7}
+			ks = []int{1, 2, 3, 4, 5, 6, 7, 8}
 		}
 		for _, k := range ks {
 			id++
